@@ -294,8 +294,43 @@ def check_warm_start(ctx, F):
     ctx.floor("R17.4", "warm_start runs", n, 8)
 
 
+def check_row_counts(ctx):
+    """R17.5: training indexes rewards and contexts by the positions of the decisions. Unless the facade rejects
+    batches whose arrays differ in length before any state is touched, such a batch fails (or silently misaligns)
+    in the middle of training. The only tolerated exception is the documented one: a single decision whose context
+    row is given as a pandas Series (its length is then the number of features)."""
+    from ..model import canon_eq
+    prog = ctx.prog
+    fn = prog.method("MAB", "_validate_fit_args")
+    ctx.saw_fn(fn)
+    d, r, c = fn.params[1], fn.params[2], fn.params[3]
+    tests = [x.args[0] for x in ast.walk(fn.node) if isinstance(x, ast.Call) and ast.unparse(x.func) == "check_true"
+             and x.args]
+    eq_r = canon_eq("len(%s)" % d, "len(%s)" % r)
+    eq_c = canon_eq("len(%s)" % d, "len(%s)" % c)
+    ok_r = any(" ".join(ast.unparse(t).split()) == eq_r for t in tests)
+    ctx.check(ok_r, "R17.5", "decisions and rewards of unequal length are rejected by the facade", fn.node, fn,
+              "no check_true(%s, ...)" % eq_r, construct="def MAB._validate_fit_args (rewards length)")
+    ok_c, seen = False, None
+    for t in tests:
+        parts = t.values if isinstance(t, ast.BoolOp) and isinstance(t.op, ast.Or) else [t]
+        txt = [" ".join(ast.unparse(p).split()) for p in parts]
+        if eq_c not in txt:
+            continue
+        seen = txt
+        rest = [p for p in txt if p != eq_c]
+        single = canon_eq("len(%s)" % d, "1")
+        allowed = {"%s and isinstance(%s, pd.Series)" % (single, c), "isinstance(%s, pd.Series) and %s" % (c, single)}
+        ok_c = all(p in allowed for p in rest)
+    ctx.check(ok_c, "R17.5", "decisions and contexts of unequal length are rejected by the facade (except one "
+              "decision with a Series of features)", fn.node, fn, "length test: %s" % (seen,),
+              construct="def MAB._validate_fit_args (contexts length)")
+
+
 def check(ctx):
     F = facts(ctx)
+    ctx.rule("R17.5", "row counts of decisions, rewards and contexts are validated by the facade")
+    check_row_counts(ctx)
     ctx.rule("R17.1", "facade: no validation/conversion that can raise after the first mutation, on any path")
     ctx.rule("R17.2", "implementors: a column-compatibility requiring operation dominates the first write, or "
                       "private-copy-publish")
